@@ -171,6 +171,35 @@ fn score_case<A: Abc, C: PositiveLength, P: Score<f32, A, C> + Maximum<f32, C>>(
     }
 }
 
+/// A sequence that holds FEWER look-ahead rows than the motif needs (configured for a shorter motif, then cloned - no
+/// spare capacity - or not): the vector kernels must refuse the call (their documented panic) or, if they answer, stay
+/// inside the sequence matrix.
+fn under_configured_case<A: Abc, P: Score<f32, A, U32>>(rec: &mut Recorder, pli: &P, be: &str, rng: &mut impl Rng, l: usize, m: usize) {
+    let ranks = random_ranks::<A>(rng, l, 0.02);
+    let cells = random_pssm::<A>(rng, m, 0.0, true, 20);
+    let pssm = build_pssm::<A>(&cells);
+    let mut seq: StripedSequence<A, U32> = Pipeline::<A, _>::generic().stripe(A::syms(&ranks));
+    let short = rng.gen_range(0..m - 1);
+    seq.configure_wrap(short);
+    let seq = if rng.gen_bool(0.5) { seq.clone() } else { seq };
+    let mut scores = StripedScores::<f32, U32>::empty();
+    let (r, log) = logged(|| pli.score_into(&pssm, &seq, &mut scores));
+    let kernel = format!("score_f32_{}", be);
+    let params = json!({"L": l, "M": m, "C": 32, "abc": A::NAME, "a": 0, "b": (l + 31) / 32, "wrap": short});
+    match r {
+        Ok(()) => {
+            let regions = [region_of("seq", seq.matrix()), region_of("pssm", pssm.matrix()), region_of("scores", scores.matrix())];
+            emit(rec, "score_f32_under_configured_answered", summarise(&kernel, params, &regions, log));
+        }
+        Err(msg) => {
+            // a refusal is fine; what it must not do is touch memory outside the matrix first (nothing is logged before the check)
+            let mut e = panic_event(&kernel, params, msg);
+            e["ret"] = json!("refused");
+            emit(rec, "score_f32_under_configured_refused", e);
+        }
+    }
+}
+
 fn score_u8_case<P: Score<u8, Dna, U32> + Maximum<u8, U32>>(rec: &mut Recorder, pli: &P, be: &str, rng: &mut impl Rng, l: usize, m: usize) {
     let ranks = random_ranks::<Dna>(rng, l, 0.05);
     let cells = random_pssm::<Dna>(rng, m, 0.0, true, 3);
@@ -254,6 +283,12 @@ pub fn record(rec: &mut Recorder, seed: u64, thorough: bool) {
         score_case::<Protein, U32, _>(rec, &Pipeline::<Protein, _>::sse2().unwrap(), "sse2", &mut r, l, m, &mut sc_s32);
         score_u8_case(rec, &Pipeline::<Dna, _>::avx2().unwrap(), "avx2", &mut r, l, m.min(12));
         if it % 3 == 0 { score_case::<Dna, U32, _>(rec, &Pipeline::<Dna, _>::dispatch(), "dispatch", &mut r, l, m, &mut sc_d); }
+        if it % 4 == 1 && m >= 3 {
+            let l2 = r.gen_range(1..200);
+            under_configured_case::<Dna, _>(rec, &Pipeline::<Dna, _>::avx2().unwrap(), "avx2", &mut r, l2, m);
+            under_configured_case::<Protein, _>(rec, &Pipeline::<Protein, _>::avx2().unwrap(), "avx2", &mut r, l2, m);
+            under_configured_case::<Dna, _>(rec, &Pipeline::<Dna, _>::sse2().unwrap(), "sse2", &mut r, l2, m);
+        }
     }
     // ---- the scanner (its 8-bit block loop) on the AVX2 arm, after the direct calls above have identified the
     //      instruction sites that read the sequence matrix
